@@ -166,9 +166,10 @@ pub fn pack_c19<P: SimPrefix>(ctx: &mut Ctx, w: &mut World<P>) -> R {
 // ------------------------------------------------------------------------------------------- C20
 
 /// the map must be a well-formed, size-consistent, slot-consistent trie holding `exp`
-fn valid_after_fault<P: SimPrefix>(ctx: &mut Ctx, m: &PrefixMap<P, Val>, exp: &[Ent], what: &str) -> R {
+pub fn valid_after_fault<P: SimPrefix>(ctx: &mut Ctx, m: &PrefixMap<P, Val>, exp: &[Ent], what: &str) -> R {
     let t = truth_of(&m.verif_snapshot());
-    chk!(ctx, "C20", t.ents == exp, format!("after-panic:contents:{what}"), "after a panicking callback in {what}: entries {:?}, expected {:?}", t.ents, exp);
+    let core = |v: &[Ent]| v.iter().map(|e| (e.key, e.v)).collect::<Vec<_>>();
+    chk!(ctx, "C20", core(&t.ents) == core(exp), format!("after-panic:contents:{what}"), "after a panicking callback in {what}: entries {:?}, expected {:?}", t.ents, exp);
     chk!(ctx, "C20", m.len() == t.ents.len() && m.is_empty() == t.ents.is_empty(), format!("after-panic:size:{what}"), "after a panicking callback in {what}: len() = {} but {} entries", m.len(), t.ents.len());
     let (_, errs) = ctx.obs("C20", "walk", || walk(m.view(), 2 * t.nodes.len() + 4))?;
     chk!(ctx, "C20", errs.is_empty() && t.walk_errors.is_empty(), format!("after-panic:ill-formed:{what}"), "after a panicking callback in {what}: {:?} {:?}", errs, t.walk_errors);
@@ -235,11 +236,11 @@ pub fn pack_c20<P: SimPrefix>(ctx: &mut Ctx, w: &mut World<P>) -> R {
                 break;
             }
             let q = pr[(mix64(salt ^ j) % pr.len() as u64) as usize];
-            for op in 0..5 {
+            for op in 0..7 {
                 let mut c = ctx.mutate("clone", || w.maps[i].real.clone())?;
                 let p = P::make(noisy::<P>(q, salt));
                 arm_fault(Some(0));
-                let name = ["or_insert_with", "and_modify", "or_default", "VacantEntry::insert_with", "VacantEntry::default"][op];
+                let name = ["or_insert_with", "and_modify", "or_default", "VacantEntry::insert_with", "VacantEntry::default", "OccupiedEntry::remove + or_insert_with", "OccupiedEntry::remove + or_default"][op];
                 let r = ctx.mutate_faulty(name, || match op {
                     0 => {
                         c.entry(p).or_insert_with(|| {
@@ -264,9 +265,24 @@ pub fn pack_c20<P: SimPrefix>(ctx: &mut Ctx, w: &mut World<P>) -> R {
                             });
                         }
                     }
-                    _ => {
+                    4 => {
                         if let prefix_trie::map::Entry::Vacant(e) = c.entry(p) {
                             e.default();
+                        }
+                    }
+                    5 => {
+                        if let prefix_trie::map::Entry::Occupied(mut e) = c.entry(p) {
+                            e.remove();
+                            prefix_trie::map::Entry::Occupied(e).or_insert_with(|| {
+                                callback_point();
+                                Val::new(9)
+                            });
+                        }
+                    }
+                    _ => {
+                        if let prefix_trie::map::Entry::Occupied(mut e) = c.entry(p) {
+                            e.remove();
+                            prefix_trie::map::Entry::Occupied(e).or_default();
                         }
                     }
                 });
@@ -274,7 +290,13 @@ pub fn pack_c20<P: SimPrefix>(ctx: &mut Ctx, w: &mut World<P>) -> R {
                 let r = r?;
                 if r.is_none() {
                     ctx.stats.hit("fault.enumerated entry-closure panic");
-                    valid_after_fault(ctx, &c, &before, name)?;
+                    if op >= 5 {
+                        // the value was taken out through the handle before the panicking call
+                        let exp: Vec<Ent> = before.iter().filter(|e| e.key != q).cloned().collect();
+                        valid_after_fault(ctx, &c, &exp, name)?;
+                    } else {
+                        valid_after_fault(ctx, &c, &before, name)?;
+                    }
                 }
                 ctx.mutate("drop", move || drop(c))?;
             }
